@@ -12,6 +12,7 @@ mod components;
 mod json;
 mod kernels;
 mod lean;
+mod repr;
 mod world;
 
 use ctrl::{Rng, Strategy};
@@ -182,6 +183,7 @@ fn main() {
         "sched-conf" => e2e::cmd_sched_conf(&args),
         "history" => components::cmd_history(&args),
         "reward" => components::cmd_reward(&args),
+        "repr" => repr::cmd_repr(&args),
         other => J::obj(vec![("error", J::Str(format!("unknown subcommand {other}")))]),
     };
     println!("{}", out.render());
